@@ -108,6 +108,15 @@ CHECKS = {
         note="Interleaving granularity is the event loop's poll turn (seed-chosen prefixes of its pending events), datagram delivery order and the time slices between application steps. The lock-release granularity named in the property's quantifier would need yield hooks inside RustDDS (planned hook H6) and was not built: a race that needs a preemption between two statements of one event-loop turn is outside what this check can reach. Found and fixed: AsyncWaitForAcknowledgments answered Pending without leaving a waker anywhere (8d2c580).",
         technique=TECH + "; parked-application executor (re-poll only when woken / readable) with a bounded-liveness oracle and a lost-wake-up discriminator",
     ),
+    "C17": dict(
+        engine="E3",
+        category="exploration",
+        text="Seeded deterministic simulation (engine E3 on E1): a real MessageReceiver/Reader/Writer node of a secure participant L carrying the real builtin security plugins (signed governance and permissions fixtures: rtps_protection_kind NONE / SIGN / ENCRYPT / with origin authentication; eight topics covering metadata protection NONE / SIGN / ENCRYPT / with origin authentication and data protection NONE / SIGN / ENCRYPT), 2-5 readers and 0-2 writers matched with endpoints of a second, authenticated plugin set R (handshake, permission validation and key exchange by plugin calls). The simulator owns the wire: 10-40 messages of DATA / DATAFRAG / HEARTBEAT / GAP / ACKNACK with explicit or unknown entity ids and INFO_TS / INFO_DST / INFO_SRC in between; each submessage and payload unprotected, protected by R as demanded, or protected with the keys of another endpoint pair; secure prefix / body / postfix dropped, doubled, swapped, replaced by or mixed with parts of earlier messages and plaintext; bits flipped in key ids, nonces, MACs, ciphertext and signed content; sent plain or inside R's RTPS-level protection (intact or damaged), under R's or another GUID prefix. Oracle: a reference model computes, per message and endpoint, whether the message contains anything protected by R for exactly that endpoint pair at every level the governance demands (an over-approximation of what may be accepted); every endpoint with a protection requirement for which it contains nothing of the kind is bit-for-bit unchanged by the message (writer/reader proxies, counters, assembly buffers, receive cache compared before and after); honest traffic for a topic without protection is delivered.",
+        design_ref="DESIGN.md section 5 C17, section 12",
+        note="The three bootstrap endpoints the specification exempts are not on the node (every endpoint of L is a user endpoint), so the exemption itself is not exercised. SecureDiscovery is replaced by the sequence of plugin calls it makes (mirrored in /verif/facade/secnode.rs). Honest fully protected traffic is delivered in all runs (probe honest_protected_delivered), so the model's 'acceptable' sets are not vacuous; a run whose first honest protected sample does not arrive is a harness error. Damaged bytes are placed where cryptography covers them; bytes a receiver may ignore are C16's subject. Sensitivity: seven hand-made gate removals in message_receiver.rs (wrong protection set consulted, RTPS-level flag not set, crypto-handle/destination check skipped, reader-submessage gate, payload-decode fallback, unknown-entity-id filter, fall-through after a broken triple) are all reported within 20000 runs (DESIGN.md 12.8). No defect found on the tree.",
+        technique=TECH + "; real receiver with real security plugins, simulator-owned wire (protection removal, mis-keying, sequencing faults, replay, bit flips), before/after state comparison against a reference model of acceptable traffic",
+        replay="target-sec/debug/dst replay {path} -v",
+    ),
     "C19": dict(
         engine="E3",
         category="exploration",
@@ -134,7 +143,6 @@ NOT_APPLICABLE = {
     "C15": PURE % ("PL_CDR (de)serialisation of discovery data", "a discovery data value, extra parameters and a byte order") + " Incidental, unclaimed: the scripted participants of C11/C12 are understood by real Discovery in both byte orders.",
     "C16": PURE % ("the cryptographic transform", "an encoded message, key material and one alteration"),
     "C18": PURE % ("signature verification and the permissions/governance decision", "a document and a query"),
-    "C17": "A simulation target (sequences of protected/unprotected submessages against receiver state), but it needs the crypto and access-control plugins wired to a MessageReceiver with governance fixtures; only the authentication part of engine E3 was built in this round.",
 }
 
 ALL = ["C%02d" % i for i in range(1, 21)]
